@@ -112,12 +112,13 @@ type Model struct {
 	Bad      []string            // consistency facts that do not hold (map key != key leaf, nil entry ...)
 	Extra    []string            // Go-representation facts that are not data (empty non-nil leaf-list): part of state identity only
 	Paths    map[string]Path     // structured form of every path string above
+	Structs  map[string]interface{} // container / list-entry path -> GoStruct pointer found there (not cloned)
 }
 
 // NewModel returns an empty model.
 func NewModel() *Model {
 	return &Model{Leaves: map[string]Value{}, Entries: map[string]bool{}, Order: map[string][]string{},
-		Presence: map[string]bool{}, Unkeyed: map[string][]string{}, Paths: map[string]Path{}}
+		Presence: map[string]bool{}, Unkeyed: map[string][]string{}, Paths: map[string]Path{}, Structs: map[string]interface{}{}}
 }
 
 // Clone deep-copies the model.
@@ -380,6 +381,7 @@ func (p *Pkg) observeStruct(m *Model, sv reflect.Value, prefix Path) {
 			if f.Tag.Get("yangPresence") == "true" {
 				m.Presence[m.reg(cp)] = true
 			}
+			m.Structs[m.reg(cp)] = fv.Interface()
 			p.observeStruct(m, fv.Elem(), cp)
 		case FKeyedList:
 			if fv.IsNil() {
@@ -406,6 +408,7 @@ func (p *Pkg) observeStruct(m *Model, sv reflect.Value, prefix Path) {
 					continue
 				}
 				p.checkKeyLeaves(m, e.v.Elem(), e.kv, ep)
+				m.Structs[ep.String()] = e.v.Interface()
 				p.observeStruct(m, e.v.Elem(), ep)
 			}
 		case FOrderedList:
@@ -432,6 +435,7 @@ func (p *Pkg) observeStruct(m *Model, sv reflect.Value, prefix Path) {
 					continue
 				}
 				p.checkKeyLeaves(m, ev.Elem(), kv, ep)
+				m.Structs[ep.String()] = ev.Interface()
 				p.observeStruct(m, ev.Elem(), ep)
 			}
 			if len(order) > 0 {
